@@ -238,8 +238,9 @@ def r3(R, m):
 
 
 def r4(R, m):
-    R.rule("C03.R4", "gethkls keeps a reflection only under 'ds < dsmax' and 'not self.absent(h,k,l)', starts at l = 1 (no 000), sorts "
-                     "the list ascending before storing it")
+    R.rule("C03.R4", "gethkls keeps a reflection only under 'ds < dsmax' and 'not self.absent(h,k,l)', skips (000), enumerates a box that "
+                     "contains every reflection below the limit (half-width >= dsmax * cell length per axis, no early exit), sorts the list "
+                     "ascending before storing it; ds(h)^2 == h.gi.h")
     fn = m.func("unitcell.gethkls")
     cfg = pyfacts.PyCFG(fn)
     apps = [s for s in ast.walk(fn) if isinstance(s, ast.Expr) and isinstance(s.value, ast.Call) and isinstance(s.value.func, ast.Attribute)
@@ -255,10 +256,85 @@ def r4(R, m):
                 "the stored d-star or indices are not those that were tested")
     dsa = [s for s in ast.walk(fn) if isinstance(s, ast.Assign) and src(s.targets[0]) == "ds"]
     R.shape(len(dsa) == 1, "C03.R4", REL, "unitcell.gethkls", "the single assignment of ds")
-    init_l = [s for s in fn.body if isinstance(s, ast.Assign) and src(s.targets[0]) == "l"]
-    init_hk = [s for s in fn.body if isinstance(s, ast.Assign) and "h" in [src(t) for t in s.targets] and "k" in [src(t) for t in s.targets]]
-    R.check(len(init_l) == 1 and src(init_l[0].value) == "1" and len(init_hk) == 1 and src(init_hk[0].value) == "0", "C03.R4", REL, fn.lineno,
-            "unitcell.gethkls", "walk starts at (0,0,1)", "the (000) reflection is no longer skipped (or the start moved)")
+    # completeness of the enumeration.  |h| = |a . g| <= |a| |g| < a * dsmax, so a box of half-width >= dsmax * a (b, c) around the origin
+    # contains every reflection below the limit; a scan of a lattice line that starts at a fixed index and stops at the first
+    # reflection beyond the limit does not (the indices in range form an interval that need not contain the start when the
+    # reciprocal metric has off-diagonal terms).
+    entry = apps[0].value.args[0]
+    idx = [src(e) for e in entry.elts[1].elts] if isinstance(entry, ast.List) and len(entry.elts) == 2 and isinstance(entry.elts[1], ast.Tuple) else None
+    R.shape(idx is not None and len(idx) == 3, "C03.R4", REL, "unitcell.gethkls", "the entry [ds, (h, k, l)]")
+    fors = {}
+    for l_ in ast.walk(fn):
+        if isinstance(l_, ast.For) and isinstance(l_.target, ast.Name) and l_.target.id in idx:
+            fors[l_.target.id] = l_
+    whiles = [w for w in ast.walk(fn) if isinstance(w, ast.While)]
+    an = cfg.node_of(apps[0])
+    if len(fors) == 3 and not whiles:
+        for axis, v in enumerate(idx):
+            it = fors[v].iter
+            okb = False
+            if isinstance(it, ast.Call) and src(it.func) == "range" and len(it.args) == 2:
+                lo = pyfacts.resolved(fn, it.args[0], 3, keep=("self", "dsmax"))
+                hi = pyfacts.resolved(fn, it.args[1], 3, keep=("self", "dsmax"))
+
+                def half(e):
+                    """e == int(dsmax * self.lattice_parameters[axis]) + c  ->  c ; else None"""
+                    c = 0
+                    while isinstance(e, ast.BinOp) and isinstance(e.op, ast.Add) and pyfacts.const_int(e.right) is not None:
+                        c += pyfacts.const_int(e.right)
+                        e = e.left
+                    if isinstance(e, ast.Call) and src(e.func) in ("int", "math.floor", "np.floor", "math.ceil", "np.ceil") and len(e.args) == 1:
+                        t = src(e.args[0]).replace(" ", "")
+                        for ax_ in range(3):
+                            if t in ("dsmax*self.lattice_parameters[%d]" % ax_, "self.lattice_parameters[%d]*dsmax" % ax_):
+                                if ax_ != axis:
+                                    wrong_axis.append(ax_)
+                                return c
+                    return None
+                wrong_axis = []
+                neg = lo.operand if isinstance(lo, ast.UnaryOp) and isinstance(lo.op, ast.USub) else None
+                cl = half(neg) if neg is not None else None
+                ch = half(hi)
+                R.shape(cl is not None and ch is not None, "C03.R4", REL, "unitcell.gethkls",
+                        "the range of %s as -(int(dsmax * cell length) + c) .. int(dsmax * cell length) + c' (found %s)" % (v, src(it)[:70]))
+                okb = cl >= 1 and ch >= 2 and not wrong_axis       # range's upper bound is exclusive
+                R.check(okb, "C03.R4", REL, fors[v].lineno, "unitcell.gethkls", "%s runs over at least [-dsmax*|axis %d|, dsmax*|axis %d|] (%s)" % (v, axis, axis, src(it)),
+                        "the box scanned for %s is smaller than dsmax times the cell length: reflections below the limit lie outside it" % v)
+            else:
+                R.shape(False, "C03.R4", REL, "unitcell.gethkls", "range(-M, M + 1) for %s" % v)
+        early = [x for x in ast.walk(fn) if isinstance(x, ast.Break)]
+        R.check(not early, "C03.R4", REL, early[0].lineno if early else fn.lineno, "unitcell.gethkls", "no break in the enumeration",
+                "the scan of a lattice line / plane is cut short")
+        def is_origin(t):
+            """t is  h == 0 and k == 0 and l == 0  (any order, any nesting of 'and')"""
+            names = set()
+
+            def walk(e):
+                if isinstance(e, ast.BoolOp) and isinstance(e.op, ast.And):
+                    return all(walk(v_) for v_ in e.values)
+                if isinstance(e, ast.Compare) and len(e.ops) == 1 and isinstance(e.ops[0], ast.Eq) and isinstance(e.left, ast.Name) and pyfacts.const_int(e.comparators[0]) == 0:
+                    names.add(e.left.id)
+                    return True
+                return False
+            return walk(t) and names == set(idx)
+        R.check(any(is_origin(t) and not pol for t, pol in cfg.guards(an)), "C03.R4", REL, apps[0].lineno, "unitcell.gethkls", "(0,0,0) is skipped",
+                "the (000) reflection (d-star 0) is listed")
+        conts = [x for x in ast.walk(fn) if isinstance(x, ast.Continue)]
+        for x in conts:
+            gx = cfg.guards(cfg.node_of(x))
+            R.check(any(is_origin(t) and pol for t, pol in gx), "C03.R4", REL, x.lineno, "unitcell.gethkls", "continue only for (0,0,0)",
+                    "other reflections are skipped under %s" % [src(t) for t, pol in gx][:2])
+    elif whiles:
+        brk = [x for x in ast.walk(fn) if isinstance(x, ast.Break)]
+        dep = [x for x in brk if any("ds" in src(t) and "dsmax" in src(t) for t, pol in cfg.guards(cfg.node_of(x)))]
+        R.shape(bool(dep), "C03.R4", REL, "unitcell.gethkls", "how the walk over (h, k, l) covers every reflection below the limit")
+        R.check(False, "C03.R4", REL, dep[0].lineno, "unitcell.gethkls", "walk along lattice lines from a fixed start index, left at the first reflection with ds >= dsmax",
+                "the walk scans each lattice line from a fixed index (l = 0 / 1) outwards and stops in each direction at the first reflection beyond the "
+                "limit; for a cell whose reciprocal metric has off-diagonal terms the in-range indices of a line form an interval that need not "
+                "contain the start, so whole runs of reflections below the limit are never visited (and a row that looks empty ends the walk "
+                "over k early): the list is incomplete for most triclinic cells")
+    else:
+        R.shape(False, "C03.R4", REL, "unitcell.gethkls", "the enumeration of (h, k, l): three range loops over a box, or the axis walk")
     srt = [s for s in fn.body if isinstance(s, ast.Expr) and src(s.value) == "peaks.sort()"]
     store = [s for s in fn.body if isinstance(s, ast.Assign) and src(s.targets[0]) == "self.peaks" and src(s.value) == "peaks"]
     R.check(len(srt) == 1 and len(store) == 1 and srt[0].lineno < store[0].lineno, "C03.R4", REL, fn.lineno, "unitcell.gethkls",
